@@ -453,10 +453,15 @@ func finalFieldValue(p *Path, path []string, all []flatField) *Term {
 	if len(p.RetT) == 0 {
 		return nil
 	}
-	r := p.RetT[0]
+	return fieldValueAt(p, p.RetT[0], path, 1<<30, 0)
+}
+
+// fieldValueAt: the value base.<path> holds on p just before effect number upTo. A whole-struct store from a
+// local struct value (`d := T{…}; r.Embedded = d`) is looked through: the field of the local at the time of the copy.
+func fieldValueAt(p *Path, r *Term, path []string, upTo int, depth int) *Term {
 	var val *Term
 	for _, e := range p.Effects {
-		if e.Kind != "store" {
+		if e.Kind != "store" || e.Seq >= upTo {
 			continue
 		}
 		// address = field chain q over r, with q a prefix of path
@@ -486,6 +491,12 @@ func finalFieldValue(p *Path, path []string, all []flatField) *Term {
 		src := e.Val
 		if src.Op == "load" {
 			src = src.Args[0]
+		}
+		if src.Op == "alloc" && depth < 4 {
+			if v := fieldValueAt(p, src, path[len(q):], e.Seq, depth+1); v != nil {
+				val = v
+				continue
+			}
 		}
 		t := src
 		for _, name := range path[len(q):] {
